@@ -3,72 +3,72 @@ From Coq Require Import List NArith ZArith Arith Bool Lia.
 From AHK Require Import Model.Subs Proofs.Subs Proofs.SubsStep.
 Import ListNotations.
 
-Lemma reachable_run : forall raises h, reachable raises (fst (run raises h)).
+Lemma reachable_run : forall raises acts h, reachable raises acts (fst (run raises acts h)).
 Proof. intros. unfold run. apply reachable_run_from. constructor. Qed.
 
-Lemma main_invariant : forall raises h,
-    NoDup (subs (fst (run raises h))) /\ NoDup (lst (fst (run raises h))).
-Proof. intros. apply (inv_reachable raises). apply reachable_run. Qed.
+Lemma main_invariant : forall raises acts h,
+    NoDup (subs (fst (run raises acts h))) /\ NoDup (lst (fst (run raises acts h))).
+Proof. intros. apply (inv_reachable raises acts). apply reachable_run. Qed.
 
-Lemma main_resubscribe_all : forall raises h rs s' o,
-    let s := fst (run raises h) in
+Lemma main_resubscribe_all : forall raises acts h rs s' o,
+    let s := fst (run raises acts h) in
     conn s = false -> sup s = true ->
-    step raises s (ConnUp rs) = (s', o) -> sup s' = true ->
+    step raises acts s (ConnUp rs) = (s', o) -> sup s' = true ->
     (forall c, In c (put_ids true o) <-> In c (subs s))
     /\ put_ids false o = []
     /\ (forall l, In l (lst s) -> calls_of l o = [[]])
     /\ (forall l, ~ In l (lst s) -> calls_of l o = [])
-    /\ conn s' = true /\ subs s' = subs s /\ lst s' = lst s.
+    /\ conn s' = true /\ subs s' = subs s /\ lst s' = reg_after acts s [].
 Proof.
-  intros raises h rs s' o s HC HS Hstep Hs'.
-  apply (resubscribe_all_l raises s rs s' o); try assumption.
-  apply (inv_reachable raises). apply reachable_run.
+  intros raises acts h rs s' o s HC HS Hstep Hs'.
+  apply (resubscribe_all_l raises acts s rs s' o); try assumption.
+  apply (inv_reachable raises acts). apply reachable_run.
 Qed.
 
-Lemma main_connup_fallback : forall raises h rs s' o,
-    let s := fst (run raises h) in
+Lemma main_connup_fallback : forall raises acts h rs s' o,
+    let s := fst (run raises acts h) in
     conn s = false -> sup s = false ->
-    step raises s (ConnUp rs) = (s', o) ->
+    step raises acts s (ConnUp rs) = (s', o) ->
     put_ids true o = [] /\ put_ids false o = []
     /\ (forall l, In l (lst s) -> calls_of l o = [[]])
     /\ conn s' = true /\ subs s' = subs s /\ sup s' = false.
 Proof.
-  intros raises h rs s' o s HC HS Hstep.
-  apply (connup_fallback_l raises s rs s' o); try assumption.
-  apply (inv_reachable raises). apply reachable_run.
+  intros raises acts h rs s' o s HC HS Hstep.
+  apply (connup_fallback_l raises acts s rs s' o); try assumption.
+  apply (inv_reachable raises acts). apply reachable_run.
 Qed.
 
-Lemma main_fallback_permanent : forall raises s e, sup s = false -> sup (fst (step raises s e)) = false.
-Proof. intros raises s e H. rewrite sup_step, H. reflexivity. Qed.
+Lemma main_fallback_permanent : forall raises acts s e, sup s = false -> sup (fst (step raises acts s e)) = false.
+Proof. intros raises acts s e H. rewrite sup_step, H. reflexivity. Qed.
 
-Lemma main_subs_survive : forall raises s,
-    (forall rs, subs (fst (step raises s (ConnUp rs))) = subs s)
-    /\ subs (fst (step raises s ConnDown)) = subs s
-    /\ (forall b, subs (fst (step raises s (EventMsg b))) = subs s)
-    /\ (forall l, subs (fst (step raises s (AddL l))) = subs s)
-    /\ (forall l, subs (fst (step raises s (DelL l))) = subs s).
+Lemma main_subs_survive : forall raises acts s,
+    (forall rs, subs (fst (step raises acts s (ConnUp rs))) = subs s)
+    /\ subs (fst (step raises acts s ConnDown)) = subs s
+    /\ (forall b, subs (fst (step raises acts s (EventMsg b))) = subs s)
+    /\ (forall l, subs (fst (step raises acts s (AddL l))) = subs s)
+    /\ (forall l, subs (fst (step raises acts s (DelL l))) = subs s).
 Proof.
-  intros raises s. split; [|split; [|split; [|split]]].
-  - intros rs. exact (subs_other raises s (ConnUp rs)).
-  - exact (subs_other raises s ConnDown).
-  - intros b. exact (subs_other raises s (EventMsg b)).
-  - intros l. exact (subs_other raises s (AddL l)).
-  - intros l. exact (subs_other raises s (DelL l)).
+  intros raises acts s. split; [|split; [|split; [|split]]].
+  - intros rs. exact (subs_other raises acts s (ConnUp rs)).
+  - exact (subs_other raises acts s ConnDown).
+  - intros b. exact (subs_other raises acts s (EventMsg b)).
+  - intros l. exact (subs_other raises acts s (AddL l)).
+  - intros l. exact (subs_other raises acts s (DelL l)).
 Qed.
 
-Lemma main_event_stream : forall raises h bs l,
-    let s := fst (run raises h) in
-    conn s = true ->
-    fst (run_from raises s (map EventMsg bs)) = s
-    /\ calls_of l (snd (run_from raises s (map EventMsg bs)))
+Lemma main_event_stream : forall raises acts h bs l,
+    let s := fst (run raises acts h) in
+    quiet acts -> conn s = true ->
+    fst (run_from raises acts s (map EventMsg bs)) = s
+    /\ calls_of l (snd (run_from raises acts s (map EventMsg bs)))
        = if memN l (lst s) then flat_map deliver bs else [].
 Proof.
-  intros raises h bs l s HC. apply event_stream_l; [exact HC|].
-  apply (main_invariant raises h).
+  intros raises acts h bs l s Q HC. apply event_stream_l; [exact Q|exact HC|].
+  apply (main_invariant raises acts h).
 Qed.
 
-Lemma main_log_char : forall raises h l,
-    calls_of l (snd (run raises h)) = expected_log raises l init h.
+Lemma main_log_char : forall raises acts h l,
+    calls_of l (snd (run raises acts h)) = expected_log raises acts l init h.
 Proof. intros. unfold run. apply log_char. apply inv_init. Qed.
 
 Lemma main_format : forall rows,
@@ -79,24 +79,37 @@ Proof.
   intros rows. split; [apply format_keys_NoDup|]. split; intros k; [apply format_keys_In|apply format_lookup].
 Qed.
 
-Lemma main_isolation : forall r1 r2 h,
-    fst (run r1 h) = fst (run r2 h)
-    /\ strip (snd (run r1 h)) = strip (snd (run r2 h))
-    /\ (forall l, calls_of l (snd (run r1 h)) = calls_of l (snd (run r2 h)))
-    /\ (forall ev, put_ids ev (snd (run r1 h)) = put_ids ev (snd (run r2 h)))
-    /\ (In OLost (snd (run r1 h)) <-> In OLost (snd (run r2 h))).
+Lemma main_isolation : forall r1 r2 acts h,
+    fst (run r1 acts h) = fst (run r2 acts h)
+    /\ strip (snd (run r1 acts h)) = strip (snd (run r2 acts h))
+    /\ (forall l, calls_of l (snd (run r1 acts h)) = calls_of l (snd (run r2 acts h)))
+    /\ (forall ev, put_ids ev (snd (run r1 acts h)) = put_ids ev (snd (run r2 acts h)))
+    /\ (In OLost (snd (run r1 acts h)) <-> In OLost (snd (run r2 acts h))).
 Proof.
-  intros r1 r2 h. unfold run. destruct (run_indep r1 r2 h init) as [P1 P2].
+  intros r1 r2 acts h. unfold run. destruct (run_indep r1 r2 acts h init) as [P1 P2].
   split; [exact P1|]. split; [exact P2|]. split; [|split].
-  - intros l. rewrite <- (calls_of_strip l (snd (run_from r1 init h))), P2. apply calls_of_strip.
-  - intros ev. rewrite <- (put_ids_strip ev (snd (run_from r1 init h))), P2. apply put_ids_strip.
-  - rewrite <- (lost_strip (snd (run_from r1 init h))), P2. apply lost_strip.
+  - intros l. rewrite <- (calls_of_strip l (snd (run_from r1 acts init h))), P2. apply calls_of_strip.
+  - intros ev. rewrite <- (put_ids_strip ev (snd (run_from r1 acts init h))), P2. apply put_ids_strip.
+  - rewrite <- (lost_strip (snd (run_from r1 acts init h))), P2. apply lost_strip.
 Qed.
 
-Lemma main_raise_keeps_session : forall raises s b,
-    fst (step raises s (EventMsg b)) = s /\ ~ In OLost (snd (step raises s (EventMsg b))).
+Lemma main_raise_keeps_session : forall raises acts s b,
+    subs (fst (step raises acts s (EventMsg b))) = subs s
+    /\ sup (fst (step raises acts s (EventMsg b))) = sup s
+    /\ conn (fst (step raises acts s (EventMsg b))) = conn s
+    /\ ~ In OLost (snd (step raises acts s (EventMsg b))).
 Proof.
-  intros raises s b. split; [apply event_keeps_state|].
+  intros raises acts s b. destruct (event_keeps_session raises acts s b) as [P1 [P2 P3]].
+  split; [exact P1|]. split; [exact P2|]. split; [exact P3|].
   cbn [step]. destruct (conn s); [|intros []]. destruct b; cbn [snd]; try (intros []).
   apply notify_no_lost.
+Qed.
+
+(* every listener registered when an event (or a new session) arrives is called exactly once in
+   that step, whatever the listeners do to the registry from inside their callbacks *)
+Lemma main_step_calls : forall raises acts h e l,
+    let s := fst (run raises acts h) in
+    calls_of l (snd (step raises acts s e)) = if memN l (lst s) then notif s e else [].
+Proof.
+  intros raises acts h e l s. apply step_calls. apply (main_invariant raises acts h).
 Qed.
